@@ -1,0 +1,56 @@
+//go:build verif
+// +build verif
+
+package util
+
+import "time"
+
+// VerifStopTimers stops the background idle and scale-in timers so that a harness owns every step.
+func (rp *ResourcePool) VerifStopTimers() {
+	if rp.idleTimer != nil {
+		rp.idleTimer.Stop()
+	}
+	if rp.capTimer != nil {
+		rp.capTimer.Stop()
+	}
+}
+
+// VerifCloseIdle runs one idle sweep (the idle timer's callback).
+func (rp *ResourcePool) VerifCloseIdle() { rp.closeIdleResources() }
+
+// VerifScaleIn runs one scale-in tick (the capacity timer's callback) with the 60 s gate cleared.
+func (rp *ResourcePool) VerifScaleIn() {
+	rp.lock.Lock()
+	rp.scaleOutTime = 0
+	rp.lock.Unlock()
+	rp.scaleInResources()
+}
+
+// VerifScaleInPending reports whether a scale-in step started by a tick has not finished yet.
+func (rp *ResourcePool) VerifScaleInPending() bool { return len(rp.scaleInTodo) > 0 }
+
+// VerifChanLen is the number of wrappers (idle slots) in the pool's channel.
+func (rp *ResourcePool) VerifChanLen() int { return len(rp.resources) }
+
+// VerifBaseCapacity is the capacity the pool shrinks back to.
+func (rp *ResourcePool) VerifBaseCapacity() int64 { return rp.baseCapacity.Get() }
+
+// VerifAdd registers a task exactly as the wheel's loop does for an "add" item.
+func (tw *TimeWheel) VerifAdd(delay time.Duration, key interface{}, callback func()) {
+	tw.add(&Task{delay: delay, key: key, callback: callback})
+}
+
+// VerifRemove removes a task exactly as the wheel's loop does for a "del" item.
+func (tw *TimeWheel) VerifRemove(key interface{}) { tw.remove(key) }
+
+// VerifTick advances the wheel by one tick.
+func (tw *TimeWheel) VerifTick() { tw.handleTick() }
+
+// VerifPending returns the keys currently registered.
+func (tw *TimeWheel) VerifPending() []interface{} {
+	res := make([]interface{}, 0, len(tw.bucketIndexes))
+	for k := range tw.bucketIndexes {
+		res = append(res, k)
+	}
+	return res
+}
